@@ -272,5 +272,5 @@ def run(tier: str) -> int:
     if tier != "quick":
         items += [(s, "math") for s in shapes]
     random.Random(seed()).shuffle(items)
-    collect(rep, pmap(worker, items, budget_s=400 if tier == "quick" else 2400, chunk=8))
+    collect(rep, pmap(worker, items, budget_s=400 if tier == "quick" else 720, chunk=8))
     return rep.finish(required_reach=["plain"])
